@@ -37,6 +37,7 @@ const (
 	avBytes   // a byte slice holding a word
 	avKeyBits // a value of the key type rebuilt from a word
 	avFloat   // a float special: inf+, inf-, nan, or a finite constant
+	avTuple   // the results of a multi-value call
 )
 
 type aval struct {
@@ -50,6 +51,7 @@ type aval struct {
 	blen   int64
 	order  string // avBytes: "big", "little", ""
 	fclass string // avFloat
+	tuple  []*aval // avTuple
 	fconst float64
 	why    string // avUnknown
 }
@@ -103,6 +105,12 @@ func (v *aval) String() string {
 			return v.fclass
 		}
 		return fmt.Sprint(v.fconst)
+	case avTuple:
+		var parts []string
+		for _, t := range v.tuple {
+			parts = append(parts, t.String())
+		}
+		return "(" + strings.Join(parts, ", ") + ")"
 	}
 	return "unknown(" + v.why + ")"
 }
@@ -160,6 +168,7 @@ type codecInterp struct {
 	paths int
 	fail  string // first reason the interpreter gave up
 	depth int
+	tparams map[*types.TypeParam]types.Type // type parameters of inlined generic helpers
 	// splitAt: the magnitude at which the top bit of some word changes inside the class; the
 	// driver splits the class there and runs both halves again
 	splitAt *big.Int
@@ -230,7 +239,10 @@ func (it *codecInterp) typeOf(e ast.Expr) types.Type {
 	return it.subst(t)
 }
 func (it *codecInterp) subst(t types.Type) types.Type {
-	if _, ok := types.Unalias(t).(*types.TypeParam); ok {
+	if tp, ok := types.Unalias(t).(*types.TypeParam); ok {
+		if b, bound := it.tparams[tp]; bound {
+			return b
+		}
 		return it.term
 	}
 	return t
@@ -449,6 +461,26 @@ func (it *codecInterp) eval(e ast.Expr, st *istate) *aval {
 				return res
 			}
 			return it.wrapAffine(res, fmt.Sprintf("%s %s %s", l, x.Op, r))
+		case token.MUL, token.QUO, token.REM:
+			if l.a != 0 || r.a != 0 {
+				return it.giveUp("%s of a non-constant word", x.Op)
+			}
+			z := new(big.Int)
+			switch x.Op {
+			case token.MUL:
+				z.Mul(l.b, r.b)
+			case token.QUO:
+				if r.b.Sign() == 0 {
+					return it.giveUp("division by zero")
+				}
+				z.Quo(l.b, r.b)
+			default:
+				if r.b.Sign() == 0 {
+					return it.giveUp("division by zero")
+				}
+				z.Rem(l.b, r.b)
+			}
+			return constWord(w, wrapConst(z, w))
 		case token.XOR, token.OR, token.AND, token.AND_NOT:
 			if l.w == 0 {
 				l = &aval{kind: avWord, w: w, a: l.a, b: l.b}
@@ -931,7 +963,9 @@ func (it *codecInterp) call(x *ast.CallExpr, st *istate) *aval {
 			return it.giveUp("%s of %s", fn, src)
 		}
 	}
-	// a helper of the library: run its body on the arguments
+	// a helper of the library: run its body on the arguments. A method of a codec instantiated
+	// with another key type (SignedBinaryKey[int64]{}.Transform(int64(k))) is run with that type
+	// as the key type of the arm.
 	if cu := it.c.m.calleeUnit(x); cu != nil && cu.Lit == nil && cu.Body != nil && cu.Decl != nil && it.depth < 3 {
 		env := map[*types.Var]*aval{}
 		k := 0
@@ -945,17 +979,72 @@ func (it *codecInterp) call(x *ast.CallExpr, st *istate) *aval {
 				k++
 			}
 		}
+		savedTerm := it.term
+		savedTP := it.tparams
+		{
+			// f(x) / f[T](x) on a generic helper: bind its type parameters to the type arguments
+			var fid *ast.Ident
+			switch f := ast.Unparen(x.Fun).(type) {
+			case *ast.Ident:
+				fid = f
+			case *ast.IndexExpr:
+				fid, _ = ast.Unparen(f.X).(*ast.Ident)
+			case *ast.IndexListExpr:
+				fid, _ = ast.Unparen(f.X).(*ast.Ident)
+			}
+			if fid != nil {
+				if inst, ok := info.Instances[fid]; ok && inst.TypeArgs != nil {
+					if sig, ok := cu.Obj.Type().(*types.Signature); ok && sig.TypeParams() != nil && sig.TypeParams().Len() == inst.TypeArgs.Len() {
+						ntp := map[*types.TypeParam]types.Type{}
+						for tp, b := range it.tparams {
+							ntp[tp] = b
+						}
+						for i := 0; i < inst.TypeArgs.Len(); i++ {
+							ntp[sig.TypeParams().At(i)] = it.subst(inst.TypeArgs.At(i))
+						}
+						it.tparams = ntp
+					}
+				}
+			}
+		}
+		if sel, ok := ast.Unparen(x.Fun).(*ast.SelectorExpr); ok {
+			rt := info.TypeOf(sel.X)
+			if pt, ok := rt.(*types.Pointer); ok {
+				rt = pt.Elem()
+			}
+			if nt, ok := types.Unalias(rt).(*types.Named); ok && nt.TypeArgs() != nil && nt.TypeArgs().Len() == 1 && isCodecType(nt) {
+				ta := it.subst(nt.TypeArgs().At(0))
+				if int(8*it.c.L.Sizes.Sizeof(ta)) != it.W {
+					return it.giveUp("delegation to %s, whose key type has another width", types.TypeString(nt, nil))
+				}
+				if isFloatT(ta) != it.cl.float || (!it.cl.float && isSignedInt(ta) != it.cl.signed) {
+					return it.giveUp("delegation to %s, whose key type is of another kind", types.TypeString(nt, nil))
+				}
+				it.term = ta
+			}
+		}
 		it.depth++
 		outs := it.execList(cu.Body.List, []*istate{{env: env}})
 		it.depth--
+		it.term = savedTerm
+		it.tparams = savedTP
 		var res *aval
 		for _, o := range outs {
-			if !o.done || len(o.ret) != 1 {
-				return it.giveUp("helper %s: not every path returns one value", cu.Name)
+			if !o.done {
+				return it.giveUp("helper %s: a path does not return", cu.Name)
+			}
+			if o.ret == nil {
+				continue // panics
+			}
+			var r *aval
+			if len(o.ret) == 1 {
+				r = o.ret[0]
+			} else {
+				r = &aval{kind: avTuple, tuple: o.ret}
 			}
 			if res == nil {
-				res = o.ret[0]
-			} else if res.String() != o.ret[0].String() {
+				res = r
+			} else if res.String() != r.String() {
 				return it.giveUp("helper %s returns different forms on one class", cu.Name)
 			}
 		}
@@ -1069,6 +1158,14 @@ func (it *codecInterp) exec(s ast.Stmt, st *istate) []*istate {
 		}
 	case *ast.AssignStmt:
 		if len(x.Lhs) != len(x.Rhs) {
+			if len(x.Rhs) == 1 && (x.Tok == token.ASSIGN || x.Tok == token.DEFINE) {
+				if v := it.eval(x.Rhs[0], st); v.kind == avTuple && len(v.tuple) == len(x.Lhs) {
+					for i, l := range x.Lhs {
+						it.assign(st, l, v.tuple[i])
+					}
+					return []*istate{st}
+				}
+			}
 			it.giveUp("multi-value assignment")
 			return []*istate{st}
 		}
@@ -1117,7 +1214,12 @@ func (it *codecInterp) exec(s ast.Stmt, st *istate) []*istate {
 		st.done = true
 		st.ret = nil
 		for _, r := range x.Results {
-			st.ret = append(st.ret, it.eval(r, st))
+			v := it.eval(r, st)
+			if v.kind == avTuple && len(x.Results) == 1 {
+				st.ret = append(st.ret, v.tuple...)
+			} else {
+				st.ret = append(st.ret, v)
+			}
 		}
 		return []*istate{st}
 	case *ast.IfStmt:
